@@ -4,6 +4,7 @@ import (
 	"bytes"
 	"encoding/binary"
 	"fmt"
+	"math/big"
 	"sort"
 
 	"github.com/canopy-network/canopy/fsm"
@@ -171,6 +172,16 @@ func (w *world) replayAttack() {
 	kind := "identical-bytes"
 	if alt := altPublicKeyEncoding(orig); alt != nil && t.Chance(1, 2) {
 		v, kind = alt, "alternative-public-key-encoding"
+		if _, dup := w.mustFail[string(v)]; dup {
+			return
+		}
+		w.mustFail[string(v)] = "C06|replay-" + kind
+		c.Fault("replay_" + kind)
+		w.submitRaw(v, "REPLAY("+kind+") of a transaction included at height "+fmt.Sprint(w.included[string(orig)]))
+		return
+	}
+	if m := malleateSignature(orig); m != nil && t.Chance(1, 3) {
+		v, kind = m, "malleated-signature"
 		if _, dup := w.mustFail[string(v)]; dup {
 			return
 		}
@@ -441,4 +452,33 @@ func altPublicKeyEncoding(tx []byte) []byte {
 		return nil
 	}
 	return bz
+}
+
+// malleateSignature: for ECDSA signatures (r, s) the pair (r, N-s) verifies too unless the verifier
+// insists on the low-s form; the transaction bytes (and hash) differ, the signed content does not.
+func malleateSignature(tx []byte) []byte {
+	x := new(lib.Transaction)
+	if lib.Unmarshal(tx, x) != nil || x.Signature == nil || len(x.Signature.Signature) != 64 || lib.IsRLPMemo(x.Memo) {
+		return nil
+	}
+	switch len(x.Signature.PublicKey) {
+	case 33, 64, 65:
+	default:
+		return nil
+	}
+	n, _ := new(big.Int).SetString("FFFFFFFFFFFFFFFFFFFFFFFFFFFFFFFEBAAEDCE6AF48A03BBFD25E8CD0364141", 16)
+	sv := new(big.Int).SetBytes(x.Signature.Signature[32:])
+	if sv.Sign() == 0 || sv.Cmp(n) >= 0 {
+		return nil
+	}
+	flipped := new(big.Int).Sub(n, sv).Bytes()
+	sig := append([]byte(nil), x.Signature.Signature[:32]...)
+	sig = append(sig, make([]byte, 32-len(flipped))...)
+	sig = append(sig, flipped...)
+	x.Signature.Signature = sig
+	out, err := lib.Marshal(x)
+	if err != nil {
+		return nil
+	}
+	return out
 }
